@@ -207,6 +207,10 @@ def malformed_packet(rng):
             body[o:o + 2] = rng.choice([0x0100, 0x0200, 0x0300, 0x0500, 0x0005, 0x0081, 0x0042, 0x0800]).to_bytes(2, "big")
     if kind in "FIE" and len(body) >= 1 and rng.chance(0.6):
         body[0] = rng.below(4)
+    if kind in "CF" and lt == 0 and rng.chance(0.2):
+        o = 2 if kind == "C" else 5              # the reserved all-zero 6-byte label (found unexercised for first fragments by a coverage survey)
+        if len(body) >= o + 6:
+            body[o:o + 6] = bytes(6)
     pkt = header(kind, lt, gl) + bytes(body)
     r = rng.below(10)
     if r < 3:
@@ -534,6 +538,10 @@ def fam_pre(rng, n):
         pl = size_lattice(rng, big_ok=(i % 40 == 0))
         bl = buf_lattice(rng, pl, lab_len(label), big_ok=(i % 40 == 1))
         pt = rng.choice(PTYPES_OK + PTYPES_BAD)
+        if i % 25 == 3:
+            # around the 16-bit total length, with buffers on both sides of the first-fragment header size
+            pl = 65535 - 2 - lab_len(label) + rng.range(-3, 4)
+            bl = rng.choice([0, 5, 6 + lab_len(label), 7 + lab_len(label), 13, 4097, 70000])
         p = pdu_tok(rng, pl)
         c.add("ENEW")
         if rng.chance(0.3):
@@ -554,6 +562,9 @@ def fam_utl(rng, n):
         label = rng.choice(LABELS + ["R", ZERO6])
         pdu = rng.bytes(rng.choice([0, 1, rng.range(0, 40), rng.range(0, 300)]))
         ll = lab_len(label)
+        if i % 12 == 5:
+            # GSE lengths with the top bits of the 12-bit field set, up to the limit (a seeded 11-bit mask went unnoticed)
+            pdu = rng.bytes(max(0, rng.choice([2048, 3005, 4095 - 5 - ll, 4095 - 5 - ll - rng.range(0, 40), rng.range(2040, 4080)]) - ll))
         pt = rng.choice([0x0800, 0xFFFF, 0x0600, 0x86DD])
         fid = rng.below(256)
         # well-formed descriptions and a few with an inconsistent length / short buffer
